@@ -10,10 +10,14 @@ import (
 	"sort"
 	"strings"
 
+	"github.com/go-openapi/analysis"
+	"github.com/go-openapi/errors"
 	"github.com/go-openapi/loads"
 	"github.com/go-openapi/runtime"
 	"github.com/go-openapi/runtime/middleware"
 	"github.com/go-openapi/runtime/middleware/untyped"
+	"github.com/go-openapi/spec"
+	"github.com/go-openapi/strfmt"
 
 	"verif/engine/apib"
 )
@@ -58,6 +62,10 @@ type built struct {
 	routes  []route
 	handler http.Handler
 	obs     *observed
+	via     string
+	noSpy   bool
+	ctx     *middleware.Context // nil for the entry points that hide it (Serve, ServeWithBuilder)
+	router  middleware.Router   // non-nil when the harness built the router itself
 }
 
 func (d Desc) spec() apib.Spec {
@@ -116,9 +124,71 @@ func (d Desc) load() (*loads.Document, error) {
 	return loads.Analyzed(json.RawMessage(raw), "")
 }
 
+// entry points (Case.Via): every exported way to obtain the dispatching handler chain.
+//
+//	routes                Context.RoutesHandler(builder)                         (common path)
+//	api                   Context.APIHandler(builder)                            (common path)
+//	swaggerui, rapidoc    Context.APIHandlerSwaggerUI / APIHandlerRapiDoc(builder)
+//	newrouter             middleware.NewRouter(ctx, builder(middleware.NewOperationExecutor(ctx)))
+//	serve                 middleware.ServeWithBuilder(doc, api, builder)
+//	serve-plain           middleware.Serve(doc, api)                             (no builder: matched route not observable)
+//	routable              NewRoutableContext(doc, <own RoutableAPI>, nil).RoutesHandler(builder): the flavour generated
+//	                      servers use - handlers read the matched route and bind through Context.BindValidRequest
+//	routable-router       NewRoutableContextWithAnalyzedSpec(doc, analysis, <own RoutableAPI>,
+//	                      DefaultRouter(doc, api, WithDefaultRouterLoggerFunc(..))).APIHandler(builder)
+//	routable-router-lg    the same with DefaultRouter(doc, api, WithDefaultRouterLogger(..)) and Context.SetLogger
+var surfaceVias = []string{"routes", "api", "swaggerui", "rapidoc", "newrouter", "serve", "serve-plain", "routable", "routable-router", "routable-router-lg"}
+
 // wireUp builds a fresh API, context and handler chain over an analysed description.
 func wireUp(d Desc, doc *loads.Document, via string) (b *built) {
-	b = &built{desc: d, routes: makeRoutes(d.Base, d.Ops), obs: &observed{}}
+	b = &built{desc: d, routes: makeRoutes(d.Base, d.Ops), obs: &observed{}, via: via}
+	// the builder decorates the operation executor: it sees the request after routing
+	spy := func(next http.Handler) http.Handler {
+		return http.HandlerFunc(func(w http.ResponseWriter, r *http.Request) {
+			if mr := middleware.MatchedRouteFrom(r); mr != nil {
+				b.obs.HasMR = true
+				b.obs.MRPattern = mr.PathPattern
+				for _, p := range mr.Params { // direct slice access
+					b.obs.MRParams = append(b.obs.MRParams, [2]string{p.Name, p.Value})
+					b.obs.MRGet = append(b.obs.MRGet, [2]string{p.Name, mr.Params.Get(p.Name)})
+					vv, hasKey, hasValue := mr.Params.GetOK(p.Name)
+					if len(vv) != 1 || !hasKey || hasValue != (vv[0] != "") {
+						if b.obs.MRGetOKBad == "" {
+							b.obs.MRGetOKBad = p.Name
+						}
+					}
+					if len(vv) > 0 {
+						b.obs.MRGetOK = append(b.obs.MRGetOK, [2]string{p.Name, vv[len(vv)-1]})
+					}
+				}
+			}
+			next.ServeHTTP(w, r)
+		})
+	}
+	if strings.HasPrefix(via, "routable") {
+		ra := &ownAPI{b: b, handlers: map[string]http.Handler{}}
+		for i, o := range d.Ops {
+			ra.handlers[strings.ToUpper(o.Method)+" "+o.Template] = ra.operation(i, templateNames(o.Template))
+		}
+		switch via {
+		case "routable":
+			b.ctx = middleware.NewRoutableContext(doc, ra, nil)
+			b.handler = b.ctx.RoutesHandler(spy)
+		default:
+			if via == "routable-router-lg" {
+				b.router = middleware.DefaultRouter(doc, ra, middleware.WithDefaultRouterLogger(discardLogger{}))
+			} else {
+				b.router = middleware.DefaultRouter(doc, ra, middleware.WithDefaultRouterLoggerFunc(func(string, ...any) {}))
+			}
+			b.ctx = middleware.NewRoutableContextWithAnalyzedSpec(doc, analysis.New(doc.Spec()), ra, b.router)
+			if via == "routable-router-lg" {
+				b.ctx.SetLogger(discardLogger{})
+			}
+			b.handler = b.ctx.APIHandler(spy)
+		}
+		ra.ctx = b.ctx
+		return b
+	}
 	api := untyped.NewAPI(doc)
 	for i, o := range d.Ops {
 		i := i
@@ -132,27 +202,175 @@ func wireUp(d Desc, doc *loads.Document, via string) (b *built) {
 			return okBody, nil
 		}))
 	}
-	ctx := middleware.NewContext(doc, api, nil)
-	// the builder decorates the operation executor: it sees the request after routing
-	spy := func(next http.Handler) http.Handler {
-		return http.HandlerFunc(func(w http.ResponseWriter, r *http.Request) {
-			if mr := middleware.MatchedRouteFrom(r); mr != nil {
-				b.obs.HasMR = true
-				b.obs.MRPattern = mr.PathPattern
-				for _, p := range mr.Params {
-					b.obs.MRParams = append(b.obs.MRParams, [2]string{p.Name, p.Value})
-				}
-			}
-			next.ServeHTTP(w, r)
-		})
+	switch via {
+	case "serve":
+		b.handler = middleware.ServeWithBuilder(doc, api, spy)
+		return b
+	case "serve-plain":
+		b.handler = middleware.Serve(doc, api)
+		b.noSpy = true
+		return b
 	}
+	b.ctx = middleware.NewContext(doc, api, nil)
 	switch via {
 	case "api":
-		b.handler = ctx.APIHandler(spy)
+		b.handler = b.ctx.APIHandler(spy)
+	case "swaggerui":
+		b.handler = b.ctx.APIHandlerSwaggerUI(spy)
+	case "rapidoc":
+		b.handler = b.ctx.APIHandlerRapiDoc(spy)
+	case "newrouter":
+		b.handler = middleware.NewRouter(b.ctx, spy(middleware.NewOperationExecutor(b.ctx)))
 	default:
-		b.handler = ctx.RoutesHandler(spy)
+		b.handler = b.ctx.RoutesHandler(spy)
 	}
 	return b
+}
+
+// ownAPI is a RoutableAPI written the way generated servers write theirs: one http.Handler per
+// operation, which takes the matched route from the request, binds its path parameters from
+// route.Params.GetOK inside Context.BindValidRequest and responds through Context.Respond.
+type ownAPI struct {
+	b        *built
+	ctx      *middleware.Context
+	handlers map[string]http.Handler
+}
+
+type ownBinder struct {
+	names []string
+	got   map[string]any
+}
+
+func (ob *ownBinder) BindRequest(_ *http.Request, route *middleware.MatchedRoute) error {
+	for _, n := range ob.names {
+		vv, hasKey, _ := route.Params.GetOK(n)
+		if hasKey && len(vv) > 0 {
+			ob.got[n] = vv[len(vv)-1]
+		}
+	}
+	return nil
+}
+
+func (a *ownAPI) operation(i int, names []string) http.Handler {
+	return http.HandlerFunc(func(w http.ResponseWriter, r *http.Request) {
+		route, rCtx, _ := a.ctx.RouteInfo(r)
+		if rCtx != nil {
+			r = rCtx
+		}
+		ob := &ownBinder{names: names, got: map[string]any{}}
+		if err := a.ctx.BindValidRequest(r, route, ob); err != nil {
+			a.ctx.Respond(w, r, route.Produces, route, err)
+			return
+		}
+		a.b.obs.Runs = append(a.b.obs.Runs, run{Op: i, Params: ob.got})
+		a.ctx.Respond(w, r, route.Produces, route, okBody)
+	})
+}
+
+func (a *ownAPI) HandlerFor(method, path string) (http.Handler, bool) {
+	h, ok := a.handlers[strings.ToUpper(method)+" "+path]
+	return h, ok
+}
+func (a *ownAPI) ServeErrorFor(string) func(http.ResponseWriter, *http.Request, error) {
+	return errors.ServeError
+}
+func (a *ownAPI) ConsumersFor(mts []string) map[string]runtime.Consumer {
+	out := map[string]runtime.Consumer{}
+	for _, mt := range mts {
+		if mt == runtime.JSONMime {
+			out[mt] = runtime.JSONConsumer()
+		}
+	}
+	return out
+}
+func (a *ownAPI) ProducersFor(mts []string) map[string]runtime.Producer {
+	out := map[string]runtime.Producer{}
+	for _, mt := range mts {
+		if mt == runtime.JSONMime {
+			out[mt] = runtime.JSONProducer()
+		}
+	}
+	return out
+}
+func (a *ownAPI) AuthenticatorsFor(map[string]spec.SecurityScheme) map[string]runtime.Authenticator {
+	return nil
+}
+func (a *ownAPI) Authorizer() runtime.Authorizer { return nil }
+func (a *ownAPI) Formats() strfmt.Registry       { return strfmt.Default }
+func (a *ownAPI) DefaultProduces() string        { return runtime.JSONMime }
+func (a *ownAPI) DefaultConsumes() string        { return runtime.JSONMime }
+
+// direct calls the exported lookup methods themselves, after the handler chain has answered the
+// same request, and compares: Context.LookupRoute / RouteInfo / AllowedMethods and (when the
+// router was built by the harness) Router.Lookup / OtherMethods must tell what the chain did.
+func (b *built) direct(req *http.Request, o observed) (class, what string) {
+	if b.ctx == nil || o.Panic != "" || b.noSpy {
+		return "", ""
+	}
+	defer func() {
+		if e := recover(); e != nil {
+			class, what = "panic/direct-call", fmt.Sprint(e)
+		}
+	}()
+	type look struct {
+		name   string
+		found  bool
+		pat    string
+		params middleware.RouteParams
+	}
+	var looks []look
+	mr, ok := b.ctx.LookupRoute(req)
+	l := look{name: "Context.LookupRoute", found: ok && mr != nil}
+	if l.found {
+		l.pat, l.params = mr.PathPattern, mr.Params
+	}
+	looks = append(looks, l)
+	mr2, r2, ok2 := b.ctx.RouteInfo(req)
+	l = look{name: "Context.RouteInfo", found: ok2 && mr2 != nil}
+	if l.found {
+		l.pat, l.params = mr2.PathPattern, mr2.Params
+		if from := middleware.MatchedRouteFrom(r2); from != mr2 {
+			return "direct-call-differs/context-routeinfo", "RouteInfo returned a request that does not carry the matched route"
+		}
+	}
+	looks = append(looks, l)
+	if b.router != nil {
+		mr3, ok3 := b.router.Lookup(req.Method, req.URL.EscapedPath())
+		l = look{name: "Router.Lookup", found: ok3 && mr3 != nil}
+		if l.found {
+			l.pat, l.params = mr3.PathPattern, mr3.Params
+		}
+		looks = append(looks, l)
+	}
+	for _, l := range looks {
+		if l.found != o.HasMR {
+			return "direct-call-differs/" + strings.ToLower(strings.ReplaceAll(l.name, ".", "-")), fmt.Sprintf("%s found=%v, the handler chain: %s", l.name, l.found, o)
+		}
+		if !l.found {
+			continue
+		}
+		same := l.pat == o.MRPattern && len(l.params) == len(o.MRParams)
+		for i := 0; same && i < len(l.params); i++ {
+			same = l.params[i].Name == o.MRParams[i][0] && l.params[i].Value == o.MRParams[i][1]
+		}
+		if !same {
+			return "direct-call-differs/" + strings.ToLower(strings.ReplaceAll(l.name, ".", "-")), fmt.Sprintf("%s gives %q %v, the handler chain: %s", l.name, l.pat, l.params, o)
+		}
+	}
+	if !o.HasMR {
+		sets := map[string][]string{"Context.AllowedMethods": b.ctx.AllowedMethods(req)}
+		if b.router != nil {
+			sets["Router.OtherMethods"] = b.router.OtherMethods(req.Method, req.URL.EscapedPath())
+		}
+		for name, ms := range sets {
+			got := append([]string(nil), ms...)
+			sort.Strings(got)
+			if !sameSet(got, o.Allow) || (len(got) > 0) != (o.Status == 405) {
+				return "direct-call-differs/" + strings.ToLower(strings.ReplaceAll(name, ".", "-")), fmt.Sprintf("%s gives %v, the handler chain: %s", name, got, o)
+			}
+		}
+	}
+	return "", ""
 }
 
 // discardLogger swallows the debug output of the library.
@@ -226,6 +444,7 @@ func (b *built) serve(req *http.Request) (o observed) {
 		b.handler.ServeHTTP(rec, req)
 	}()
 	o = *b.obs
+	o.NoSpy = b.noSpy
 	o.Status = rec.status
 	if o.Status == 0 && o.Panic == "" {
 		o.Status = 200
@@ -273,6 +492,11 @@ func check(c Case) (class, what string) {
 		req, _ = parse(rawRequest(c.Method, c.Target))
 		o := b.serve(req)
 		class, what, _ = judgeIn(c.Debug, b.routes, req.Method, req.URL.EscapedPath(), o)
+		class = viaSuffix(class, c.Via)
+		if class == "" {
+			rq, _ := parse(rawRequest(c.Method, c.Target))
+			class, what = b.direct(rq, o)
+		}
 		if class != "" && len(c.Before) > 0 {
 			// does it need the history? the same request on a fresh instance decides the class suffix
 			fresh, _ := build(c.Desc, c.Via)
